@@ -101,6 +101,20 @@ def _is_generator(fnode):
     return False
 
 
+class _RestOfWith(ast.stmt):
+    """the remaining items and the body of a with statement whose earlier item is a @contextmanager generator"""
+    _fields = ('items_view', 'body')
+
+    def __init__(self, with_node, first):
+        super().__init__()
+        self.with_node = with_node
+        self.first = first
+        self.items_view = list(with_node.items[first:])
+        self.body = with_node.body
+        self.lineno = getattr(with_node, 'lineno', 0)
+        self.col_offset = getattr(with_node, 'col_offset', 0)
+
+
 class Frame:
     def __init__(self, fi, module, self_obj=None, cls=None):
         self.fi = fi
@@ -797,11 +811,36 @@ class Interp(ExprMixin, LoopMixin, CallMixin):
             return c
         return None
 
-    def st_With(self, st):
+    def st_With(self, st, first=0):
         managers = []
-        for item in st.items:
+        for idx in range(first, len(st.items)):
+            item = st.items[idx]
             cm = self.eval(item.context_expr)
             entered = cm
+            if isinstance(cm, GenCallV) and any(d.split('.')[-1] == 'contextmanager' for d in cm.fi.decorators):
+                # @contextmanager generator: the rest of the with statement runs at its (single) yield
+                cache = st.__dict__.setdefault('_cm_for', {})
+                node = cache.get(idx)
+                if node is None:
+                    rest = st.body if idx == len(st.items) - 1 else [_RestOfWith(st, idx + 1)]
+                    target = item.optional_vars if item.optional_vars is not None else ast.Name(id='__cm_unused', ctx=ast.Store())
+                    node = ast.For(target=target, iter=item.context_expr, body=rest, orelse=[])
+                    ast.copy_location(node, st)
+                    node._is_cm = True
+                    fi = self.prog.node_owner.get(id(st))
+                    if fi is not None:
+                        self.prog.node_owner.setdefault(id(node), fi)
+                    cache[idx] = node
+                self.event('with-enter', st, cm=cm)
+                try:
+                    self._for_generator(node, cm)
+                except (Raised, Returned, BreakSig, ContinueSig):
+                    for m in reversed(managers):
+                        self._with_exit(m, st, exceptional=True)
+                    raise
+                for m in reversed(managers):
+                    self._with_exit(m, st, exceptional=False)
+                return
             if isinstance(cm, ObjV):
                 r = cm.cls.lookup('__enter__')
                 if r and r[0] == 'method':
@@ -812,15 +851,19 @@ class Interp(ExprMixin, LoopMixin, CallMixin):
             managers.append(cm)
             if item.optional_vars is not None:
                 self.assign(item.optional_vars, entered, st)
+        from .signals import ConsumerSignal
         try:
             self.exec_block(st.body)
-        except (Raised, Returned, BreakSig, ContinueSig):
+        except (Raised, Returned, BreakSig, ContinueSig, ConsumerSignal):
             for cm in reversed(managers):
                 self._with_exit(cm, st, exceptional=True)
             raise
         else:
             for cm in reversed(managers):
                 self._with_exit(cm, st, exceptional=False)
+
+    def st__RestOfWith(self, st):
+        return self.st_With(st.with_node, first=st.first)
 
     def _with_exit(self, cm, st, exceptional):
         self.event('with-exit', st, cm=cm, exceptional=exceptional)
